@@ -325,3 +325,107 @@ func VerifC49_path() {
 	}
 	vrt.Assert(req.HttpRequest.URL.RawQuery == "x=1", "C49/path-actions-leave-query")
 }
+
+// ---------------------------------------------------------------- focused checks (seeded-change review)
+
+// formQueryC49: a symbolic raw query of n bytes over {+ a = &}: form encoding writes a space as '+'.
+func formQueryC49(n int) string {
+	b := vrt.Bytes("fq", n)
+	for i := 0; i < n; i++ {
+		vrt.Assume(b[i] == '+' || b[i] == 'a' || b[i] == '=' || b[i] == '&')
+	}
+	return string(b)
+}
+
+// concrete raw queries around the configured key "a b" in its three spellings a+b, a%20b, a%2Bb (the
+// last one is the different key "a+b")
+var spaceKeyQueriesC49 = []string{
+	"a+b=1&x=2&y", "a+b", "x=2&a+b", "a%20b=3&a+b=1", "a+b=1&a%2Bb=2", "a+b=&a+b=7&ab=1", "a%2bb=1&a=2&b=3", "+a+b=1&a+b+=2",
+}
+
+func sameValuesC49(bv, av []string) bool {
+	same := len(bv) == len(av)
+	if same {
+		for i := range bv {
+			if bv[i] != av[i] {
+				same = false
+			}
+		}
+	}
+	return same
+}
+
+// queryKeyEditC49 runs one of QUERY_DEL / QUERY_DEL_ALL_EXCEPT / QUERY_RENAME with the configured key
+// on the raw query and checks the documented effect on the query string the backend parses.
+func queryKeyEditC49(raw, key string, action int) {
+	before, _ := url.ParseQuery(raw)
+	req := mkReqC49("h", "", "/", raw)
+	switch action {
+	case 0:
+		ac := Action{Cmd: ActionQueryDel, Params: []string{key}}
+		vrt.Assert(ac.Do(req) == nil, "C49/space-key-action-runs")
+		after, _ := url.ParseQuery(req.HttpRequest.URL.RawQuery)
+		_, still := after[key]
+		vrt.Assert(!still, "C49/space-key-del-key-gone")
+		vrt.Assert(sameExceptC49(before, after, key), "C49/space-key-del-others-unchanged")
+	case 1:
+		ac := Action{Cmd: ActionQueryDelAllExcept, Params: []string{key}}
+		vrt.Assert(ac.Do(req) == nil, "C49/space-key-action-runs")
+		after, _ := url.ParseQuery(req.HttpRequest.URL.RawQuery)
+		only := true
+		for k := range after {
+			if k != key {
+				only = false
+			}
+		}
+		vrt.Assert(only, "C49/space-key-del-all-except-others-gone")
+		vrt.Assert(sameValuesC49(before[key], after[key]), "C49/space-key-del-all-except-kept")
+	case 2:
+		ac := Action{Cmd: ActionQueryRename, Params: []string{key, "c"}}
+		vrt.Assert(ac.Do(req) == nil, "C49/space-key-action-runs")
+		after, _ := url.ParseQuery(req.HttpRequest.URL.RawQuery)
+		_, still := after[key]
+		vrt.Assert(!still, "C49/space-key-rename-old-key-gone")
+		vrt.Assert(sameValuesC49(before[key], after["c"]), "C49/space-key-rename-values-moved")
+		vrt.Assert(sameExceptC49(before, after, key, "c"), "C49/space-key-rename-others-unchanged")
+	}
+}
+
+// VerifC49_focused (one entry point: every harness of this package pays the package initialisation):
+// part 0: query key containing a space, configured key " " on every raw query of 0..N bytes over {+ a = &};
+// part 1: configured key "a b" on concrete raw queries that spell it a+b / a%20b (and a%2Bb = other key);
+// part 2: HOST_SUFFIX_REPLACE where the suffix text may occur in the host more than once: hosts of
+//         1..H bytes over {a b .}, parameters [".b", ".org"] or ["b", "c"].
+func VerifC49_focused() {
+	switch vrt.Choose("part", 3) {
+	case 0:
+		raw := formQueryC49(vrt.Range("len", 0, vrt.Param("N", 3)))
+		queryKeyEditC49(raw, " ", vrt.Choose("action", 3))
+	case 1:
+		raw := spaceKeyQueriesC49[vrt.Choose("raw", len(spaceKeyQueriesC49))]
+		queryKeyEditC49(raw, "a b", vrt.Choose("action", 3))
+	case 2:
+		n := vrt.Range("hostLen", 1, vrt.Param("H", 4))
+		hb := vrt.Bytes("host", n)
+		for i := 0; i < n; i++ {
+			vrt.Assume(hb[i] == 'a' || hb[i] == 'b' || hb[i] == '.')
+		}
+		h := string(hb)
+		suffix, repl := ".b", ".org"
+		if vrt.Choose("params", 2) == 1 {
+			suffix, repl = "b", "c"
+		}
+		urlHost := ""
+		if vrt.Choose("absoluteForm", 2) == 1 {
+			urlHost = h
+		}
+		req := mkReqC49(h, urlHost, "/p", "")
+		ac := Action{Cmd: ActionHostSuffixReplace, Params: []string{suffix, repl}}
+		want := h
+		if strings.HasSuffix(h, suffix) {
+			want = h[:len(h)-len(suffix)] + repl
+		}
+		vrt.Assert(ac.Do(req) == nil, "C49/host-suffix-repeated-runs")
+		vrt.Assert(req.HttpRequest.Host == want, "C49/host-suffix-only-the-suffix-replaced")
+	}
+}
